@@ -1147,3 +1147,23 @@ def forwarded_event_between_handlers_small_history():
     return dict(buses=['A', 'B'], order=['A', 'B'], max_history={'B': 3}, observe_history=True, reals={'d1': ['1/100', '1/5'], 'd2': ['0', '1/10']}, ints={'k': [0, 8]},
                 handlers=handlers, forwards=[['A', 'B']], main=main,
                 actors={'f': [['sleep', 'd1'], ['sleep_steps', 'k'], ['root', 'B', 'X', 'F3'], ['root', 'B', 'X', 'F4']]}, horizon=6)
+
+
+
+def cross_dispatch_after(kind='idle_gap'):
+    """both buses are started from main and have processed events.  Then either nothing happens for 1.5 s (idle_gap) or B's handler
+    re-dispatches its own event type until the recursion guard refuses a level (recursion; finding F2 for that level).  Afterwards a
+    handler of A dispatches an event to B without awaiting it and goes on working; B's handler for it awaits an event it dispatches to
+    A.  A is a serial bus: the event queued behind A's running handler must not start before that handler is done."""
+    handlers = [['A', 'P', 'hP', [['sleep', 'd1'], ['disp', 'B', 'X', 'X1'], ['sleep', 'd2'], ['ret', 'p']]], ['A', 'L', 'hL', [['ret', 'l']]],
+                ['A', 'C', 'hC', [['ret', 'c']]], ['A', 'X', 'hXA', [['ret', 'x']]], ['B', 'X', 'hXB', [['only', 'X'], ['dispawait', 'A', 'C', 'C_{inv}'], ['ret', 'x']]]]
+    main = [['root', 'A', 'X', 'XA0'], ['idle', 'A'], ['root', 'B', 'X', 'XB0'], ['idle', 'B']]
+    cfg_extra = {}
+    if kind == 'idle_gap':
+        main += [['sleep', '3/2']]
+    else:
+        handlers.append(['B', 'R', 'hRB', [['recur', 'B', 'r', 'ff'], ['ret', 'r']]])
+        main += [['root', 'B', 'R', 'R0'], ['sleep', '1/2']]
+        cfg_extra = dict(ints={'r': [3, 4]}, c14_not_about=['R'])
+    main += [['root', 'A', 'P', 'P1'], ['root', 'A', 'L', 'L1'], ['sleep', '2'], ['obs_all', 'end']]
+    return dict(buses=['A', 'B'], order=['A', 'B'], reals={'d1': ['0', '1/5'], 'd2': ['1/100', '3/10']}, handlers=handlers, main=main, horizon=9, **cfg_extra)
